@@ -94,3 +94,69 @@ def _replay_process(model, rec):
         if e.nchar != len("item b"):
             bad.append(f"end to end: nchar == {e.nchar!r}, object text has {len('item b')} characters")
     return bool(bad), "; ".join(bad) or "location fields all as supplied"
+
+
+# --------------------------------------------------------------------------
+# get_location: the location handed to process() for object processors
+# --------------------------------------------------------------------------
+from . import c05  # noqa: E402,F401  (root_of / depth spec functions, get_model contract)
+
+from txvc.contracts import SpecFn  # noqa: E402
+
+# Arpeggio's Parser.pos_to_linecol as a pure function of (bound method, position) (T-ARP)
+SpecFn("linecol", [("method", "any"), ("pos", "any")], "tuple")
+
+GET_LOCATION_KEYS = ["line", "col", "nchar", "filename"]
+
+Unit(
+    "model.get_location",
+    target="textx/model.py::get_location",
+    props=["C33", "C06"],
+    params={"model_obj": "obj"},
+    requires=["depth(model_obj) >= 0"],
+    calls={
+        "the_model._tx_parser.pos_to_linecol": Ext(
+            "pos_to_linecol", returns="tuple", raises=None, pure=True,
+            ensures=["result == linecol(callee, a0)"],
+            note="Arpeggio Parser.pos_to_linecol (T-ARP): pure function returning a (line, col) pair"),
+    },
+    returns="dict",
+    returns_keys=GET_LOCATION_KEYS,
+    ensures=[
+        ("line-col-of-start-by-root-parser",
+         "(result['line'], result['col']) == "
+         "linecol(root_of(model_obj)._tx_parser.pos_to_linecol, model_obj._tx_position)"),
+        ("nchar-is-span-length",
+         "result['nchar'] == model_obj._tx_position_end - model_obj._tx_position"),
+        ("filename-of-root-model", "result['filename'] == root_of(model_obj)._tx_filename"),
+        ("exactly-four-keys", "len(result) == 4 and 'line' in result and 'col' in result"
+                              " and 'nchar' in result and 'filename' in result"),
+    ],
+    canary="result['nchar'] == 0",
+)
+
+Unit(
+    "model.textxerror_wrap.wrapper",
+    target="textx/model.py::textxerror_wrap.wrapper",
+    props=["C33"],
+    params={"obj": "any"},
+    captured={"obj_processor": "callable"},
+    requires=["implies(is_ref(obj), depth(obj) >= 0)"],
+    calls={"obj_processor": Ext("obj_processor", note="the wrapped object processor")},
+    ensures=[("value-unchanged", "result == ev(0).result")],
+    raises={
+        "Exception": [
+            ("always-textx-error", "is_instance(exc, 'TextXError')"),
+            ("textx-error-passes-unchanged",
+             "implies(is_instance(ev(0).exc, 'TextXError'), exc == ev(0).exc)"),
+            ("located-at-the-object",
+             "implies(not is_instance(ev(0).exc, 'TextXError')"
+             " and hasattr(obj, '_tx_position') and hasattr(obj, '_tx_filename'),"
+             " exc.nchar == obj._tx_position_end - obj._tx_position"
+             " and exc.filename == after(ev(0), root_of(obj)._tx_filename)"
+             " and (exc.line, exc.col) == "
+             "after(ev(0), linecol(root_of(obj)._tx_parser.pos_to_linecol, obj._tx_position)))"),
+        ],
+    },
+    canary="result is None",
+)
